@@ -508,6 +508,12 @@ type GhostAssign struct {
 	Src  string
 }
 
+type LetDef struct {
+	Name string
+	E    Expr
+	Src  string
+}
+
 type LoopSpec struct {
 	Inv  []Clause
 	Dec  *Clause
@@ -532,6 +538,7 @@ type Contract struct {
 	Returns  *Clause  // "returns e": the (single) result is this expression over the current state (implies pure)
 	PureDeps []string // ghost version variables a pure function depends on (default ASH, ASHP)
 	Dec      *Clause
+	Lets     []LetDef // "let NAME = e": e evaluated in the entry state, usable in every clause of the contract
 	Loops    map[int]*LoopSpec
 	Sites    map[string]*SiteSpec
 	Trusted  bool
@@ -834,7 +841,7 @@ func (sp *Specs) loadSpecFile(path, commentPrefix string, external bool) error {
 				if word == "dyncall" {
 					k = "dyncall " + key
 				}
-				if old, dup := sp.Contracts[k]; dup {
+				if old, dup := sp.Contracts[k]; dup && !(old.External && !external) { // a contract in the repository replaces an assumed one
 					return fail(fmt.Errorf("duplicate contract for %s (first at %s:%d)", k, old.Origin, old.Line))
 				}
 				sp.Contracts[k] = cur
@@ -873,6 +880,16 @@ func (sp *Specs) loadSpecFile(path, commentPrefix string, external bool) error {
 					cur.Mods = append(cur.Mods, m)
 				}
 			}
+		case "let":
+			parts := strings.SplitN(rest2, "=", 2)
+			if len(parts) != 2 {
+				return fail(fmt.Errorf("let NAME = expr"))
+			}
+			cl, err := parseClause(nil, strings.TrimSpace(parts[1]))
+			if err != nil {
+				return fail(err)
+			}
+			cur.Lets = append(cur.Lets, LetDef{Name: strings.TrimSpace(parts[0]), E: cl.E, Src: cl.Src})
 		case "params":
 			cur.Params = splitList(rest2)
 		case "results":
